@@ -33,14 +33,19 @@ fn many_names(rng: &mut StdRng) -> String {
     }
     for i in &ids {
         src.push_str(&format!("FUNCTION Fn{i} : INT\nVAR_INPUT x : INT; END_VAR\nFn{i} := x + INT#{i};\nEND_FUNCTION\n"));
+        // several outputs of one call bound to the SAME variable: which one survives is decided by the order in
+        // which the outputs are copied back, which must be the declaration order in every process
+        src.push_str(&format!("FUNCTION Split{i} : INT\nVAR_INPUT v : INT; END_VAR\nVAR_OUTPUT lo : INT; hi : INT; mid : INT; END_VAR\nlo := v;\nhi := v + INT#1;\nmid := v + INT#2;\nSplit{i} := v;\nEND_FUNCTION\n"));
+        src.push_str(&format!("FUNCTION_BLOCK Fan{i}\nVAR_INPUT v : INT; END_VAR\nVAR_OUTPUT first : INT; second : INT; third : INT; END_VAR\nfirst := v + INT#10;\nsecond := v + INT#20;\nthird := v + INT#30;\nEND_FUNCTION_BLOCK\n"));
     }
     src.push_str("PROGRAM Main\nVAR\n");
     for i in &ids {
-        src.push_str(&format!("  inst{i} : FB{i}; v{i} : INT; str{i} : STRING := 'text {i}';\n"));
+        src.push_str(&format!("  inst{i} : FB{i}; v{i} : INT; str{i} : STRING := 'text {i}'; w{i} : INT; u{i} : INT; fan{i} : Fan{i};\n"));
     }
     src.push_str("END_VAR\n");
     for i in &ids {
         src.push_str(&format!("inst{i}(a{i} := v{i}, o{i} => v{i}); v{i} := Fn{i}(x := v{i}) + inst{i}.M{i}(p := INT#1);\n"));
+        src.push_str(&format!("u{i} := Split{i}(v := v{i} MOD INT#100, lo => w{i}, hi => w{i}, mid => w{i});\nfan{i}(v := w{i} MOD INT#100, first => u{i}, second => u{i}, third => u{i});\n"));
     }
     src.push_str("END_PROGRAM\n");
     src
